@@ -69,11 +69,12 @@ impl ChainStorage {
             crate::verif::ev(
                 "fetched",
                 &format!(
-                    "\"h\":{},\"file\":\"{}\",\"off\":\"{}\",\"hash\":\"{}\",\"size\":{},\"ntx\":{},\"open\":[{}],\"fds\":{}",
+                    "\"h\":{},\"file\":\"{}\",\"off\":\"{}\",\"hash\":\"{}\",\"prev\":\"{}\",\"size\":{},\"ntx\":{},\"open\":[{}],\"fds\":{}",
                     height,
                     self.chain_index.get(height).unwrap().blk_index,
                     self.chain_index.get(height).unwrap().data_offset,
                     block.header.hash,
+                    block.header.value.prev_hash,
                     block.size,
                     block.txs.len(),
                     open.join(","),
